@@ -1,2 +1,152 @@
--- driver stub for C19 (replaced when the model is built)
-def main : IO Unit := pure ()
+import PyramidModel.Prelude
+import PyramidModel.HttpExc
+import PyramidModel.Gen.C19
+import PyramidModel.Lemmas.HttpExcSpec
+/-! Driver for C19: one JSON case per line.
+in : {"cls": "HTTPNotFound" | {"code":n,"title":s,"explanation":s,"body":s,"html":s,"plain":s,"custom":b,"empty":b},
+      "detail": null|s, "comment": null|s, "explanation": null|s, "body_template": null|s, "has_body": b,
+      "headers": [[k,v],…], "environ": [[k,v],…], "q": {"text/html":n,"application/json":n,"text/plain":n}}
+     (q in thousandths; 0/absent = not acceptable; strings are Python str without lone surrogates)
+out: {"r":"untouched"} | {"r":"err","err":"key","name":s} | {"r":"err","err":"invalid"} |
+     {"r":"ok","form":"html|json|plain","ctype":s,"body":s,
+      "spec":{"form":…  (argmax-q spec), "body":… (piece-wise rendering, flattened), "user_clean":b,
+              "json":null|[[k,v],…] (the Lean JSON reader applied to the body)}}
+ops: {"op":"escape","text":s} → {"escaped":s,"unescaped":s,"entities_ok":b}
+     {"op":"template","text":s,"env":[[k,v],…]} → substitute result + token kinds
+     {"op":"classes"} → the generated class table (name, code, title, custom, empty) -/
+open Pyr Pyr.HttpExc Lean
+
+def txt (s : String) : Text := s.toList
+def str (t : Text) : String := String.ofList t
+
+def optText (j : Json) (k : String) : Except String (Option Text) :=
+  match j.getObjVal? k with
+  | .error _ => pure none
+  | .ok .null => pure none
+  | .ok (.str s) => pure (some (txt s))
+  | .ok _ => throw s!"{k}: expected string or null"
+
+def reqText (j : Json) (k : String) : Except String Text := do
+  let s : String ← getAs j k
+  pure (txt s)
+
+def pairs (j : Json) (k : String) : Except String (List (Text × Text)) :=
+  match j.getObjVal? k with
+  | .error _ => pure []
+  | .ok (.arr xs) => xs.toList.mapM fun x =>
+      match x with
+      | .arr #[.str a, .str b] => pure (txt a, txt b)
+      | _ => throw s!"{k}: expected [str,str]"
+  | .ok _ => throw s!"{k}: expected a list"
+
+def parseClass (j : Json) : Except String ClassInfo :=
+  match j with
+  | .str n =>
+    match Pyr.Gen.C19.classes.find? (fun c => c.name == n) with
+    | some c => pure c
+    | none => throw s!"unknown class {n}"
+  | j => do
+    let code : Nat ← getAs j "code"
+    let custom : Bool ← getAs j "custom"
+    let empty : Bool ← getAs j "empty"
+    pure { name := "adhoc", code := code, title := ← reqText j "title", explanation := ← reqText j "explanation",
+           bodyTmpl := ← reqText j "body", custom := custom, emptyBody := empty,
+           htmlTmpl := ← reqText j "html", plainTmpl := ← reqText j "plain" }
+
+def formName : Form → String
+  | .html => "html" | .json => "json" | .plain => "plain"
+
+def errJson : Err → Json
+  | .key n => Json.mkObj [("r", "err"), ("err", "key"), ("name", str n)]
+  | .invalid => Json.mkObj [("r", "err"), ("err", "invalid")]
+
+def tokJson : Tok → Json
+  | .lit c => Json.mkObj [("lit", str [c])]
+  | .esc => Json.str "esc"
+  | .named n => Json.mkObj [("named", str n)]
+  | .braced n => Json.mkObj [("braced", str n)]
+  | .invalid r => Json.mkObj [("invalid", str r)]
+
+def runCase (j : Json) : Except String Json := do
+  match j.getObjVal? "op" with
+  | .ok (.str "escape") =>
+    let t ← reqText j "text"
+    let e := htmlEscape t
+    return Json.mkObj [("escaped", str e), ("unescaped", str (htmlUnescape e)), ("entities_ok", toJson (entitiesOk e)),
+                       ("json", str (jsonStr t)),
+                       ("json_back", match readJsonString (jsonStr t) with
+                                     | some (s, []) => Json.str (str s)
+                                     | _ => Json.null)]
+  | .ok (.str "template") =>
+    let t ← reqText j "text"
+    let env ← pairs j "env"
+    let toks := tokenize t
+    let r := substitute (fun k => lookupLast k env) t
+    let rj := match r with
+      | .ok o => Json.mkObj [("r", "ok"), ("out", str o)]
+      | .error e => errJson e
+    let viaToks := match fill (fun k => lookupLast k env) toks with
+      | .ok o => Json.mkObj [("r", "ok"), ("out", str o)]
+      | .error e => errJson e
+    return Json.mkObj [("result", rj), ("via_tokens", viaToks), ("tokens", Json.arr (toks.map tokJson).toArray),
+                       ("detok", str (detok toks))]
+  | .ok (.str "classes") =>
+    return Json.arr (Pyr.Gen.C19.classes.map fun c =>
+      Json.mkObj [("name", c.name), ("code", toJson c.code), ("title", str c.title), ("explanation", str c.explanation),
+                  ("custom", toJson c.custom), ("empty", toJson c.emptyBody), ("body", str c.bodyTmpl),
+                  ("html", str c.htmlTmpl), ("plain", str c.plainTmpl)]).toArray
+  | _ =>
+    let cj ← getField j "cls"
+    let cls ← parseClass cj
+    let detail ← optText j "detail"
+    let comment ← optText j "comment"
+    let expl ← optText j "explanation"
+    let bt ← optText j "body_template"
+    let hasBody : Bool := match j.getObjVal? "has_body" with
+      | .ok (.bool b) => b
+      | _ => false
+    let headers ← pairs j "headers"
+    let environ ← pairs j "environ"
+    let qj := (j.getObjVal? "q").toOption.getD (Json.mkObj [])
+    let q : Text → Nat := fun m =>
+      match qj.getObjVal? (str m) with
+      | .ok v => match (fromJson? v : Except String Nat) with
+        | .ok n => n
+        | .error _ => 0
+      | .error _ => 0
+    let e0 := cls.toExc detail comment headers
+    let e1 : Exc := { e0 with hasBody := hasBody, explanation := expl.getD e0.explanation }
+    let e : Exc := match bt with
+      | some t => { e1 with bodyTmpl := t, custom := true }
+      | none => e1
+    match prepare Pyr.Gen.C19.offered e environ q with
+    | .error err => return errJson err
+    | .ok none => return Json.mkObj [("r", "untouched")]
+    | .ok (some r) =>
+      let specForm := bestForm q
+      let specBody : Json := match specRender specForm e environ with
+        | .ok ps => Json.mkObj [("body", str (flattenPieces ps)), ("user_clean", toJson (userPiecesClean specForm ps))]
+        | .error _ => Json.null
+      let js : Json := match r.form with
+        | .json => match readJsonObject r.body with
+          | some kvs => Json.arr (kvs.map fun kv => Json.arr #[Json.str (str kv.1), Json.str (str kv.2)]).toArray
+          | none => Json.null
+        | _ => Json.null
+      return Json.mkObj [("r", "ok"), ("form", formName r.form), ("ctype", str r.contentType), ("body", str r.body),
+                         ("spec", Json.mkObj [("form", formName specForm), ("render", specBody), ("json", js)])]
+
+/-- the reply on one ASCII-only line (Python's `splitlines` also splits at U+0085, U+2028, …) -/
+def asciiOnly (s : String) : String :=
+  String.ofList (s.toList.flatMap fun c => if c.toNat < 127 then [c] else jsonEncChar c)
+
+def main : IO Unit := do
+  let i ← IO.getStdin
+  let o ← IO.getStdout
+  lineLoop i o fun l =>
+    asciiOnly <|
+      match Json.parse l with
+      | .error e => (Json.mkObj [("error", Json.str s!"parse: {e}")]).compress
+      | .ok j =>
+        match runCase j with
+        | .ok r => r.compress
+        | .error e => (Json.mkObj [("error", Json.str e)]).compress
